@@ -157,6 +157,8 @@ class FakeService:
         self.when = []
         self.refuse = 0            # number of connection attempts to refuse first
         self.failures = 0
+        self.hs_fail = 0            # budget of failed WebSocket negotiations on RE-connections
+        self.hs_failed = 0
         self.name = "c%d" % len(world.services)
         world.services.append(self)
 
@@ -506,6 +508,7 @@ class World:
         self.steps = 0
         self.trace = []
         self.srv_exceptions = 0
+        self.on_deliver = None   # hook(conn, payload) just before a server message reaches the client
         self.db = create_channel_db(":memory:")
         self.udb = create_usage_db(":memory:")
         self.server = make_server(self.db, usage_db=self.udb, signal_error=welcome_error,
@@ -588,6 +591,9 @@ class World:
             if c is None or not c.alive:
                 if svc.started:
                     ev.append(("mb.connect", svc))
+                    if mf and svc.hs_fail > 0 and svc.nconn >= 1:
+                        # TCP connects but the WebSocket negotiation fails: onClose without onOpen
+                        ev.append(("mb.hsfail", svc))
                 continue
             if c.c2s:
                 ev.append(("mb.c2s", c))
@@ -648,6 +654,20 @@ class World:
             for d, _ in waiters:
                 if not d.called:
                     d.callback(None)
+        elif k == "mb.hsfail":
+            svc = e[1]
+            svc.hs_fail -= 1
+            svc.hs_failed += 1
+            c = MailConn(self, svc, svc.nconn + 1000 * svc.hs_failed)
+            c.alive = False
+            waiters, svc.when = svc.when, []
+            for d, _ in waiters:          # ClientService saw a TCP connection
+                if not d.called:
+                    d.callback(None)
+            try:
+                c.cli.onClose(False, 1006, "sim: websocket negotiation failed")
+            except Exception:
+                log.err(None, "exception in onClose")
         elif k == "mb.c2s":
             c = e[1]
             payload = c.c2s.pop(0)
@@ -662,6 +682,8 @@ class World:
                 for m in chunk:
                     if not c.alive:
                         break
+                    if self.on_deliver is not None:
+                        self.on_deliver(c, m)
                     if not self._rx_guard(c, lambda m=m: c.cli.onMessage(m, False)):
                         break
             finally:
